@@ -324,7 +324,7 @@ pub fn run(ctx: &Ctx, rep: &mut Report) {
     if ctx.only_case.is_none() {
         exhaustive(ctx, rep, max_len);
     }
-    let n = if ctx.is_miri() { ctx.cases(120, 3_000) } else { ctx.cases(200_000, 6_000_000) };
+    let n = if ctx.is_miri() { ctx.cases(120, 3_000) } else { ctx.cases(200_000, 2_000_000) };
     for case in ctx.case_range(n) {
         rep.current_case = case;
         let mut rng = ctx.rng("c14", case);
